@@ -134,6 +134,18 @@ class Gen:
             e('ldmov x0, %d.0l' % rng.randint(-9, 9))
         for t in f.tmp_i:
             e('mov %s, 0' % t)
+        # every argument register / stack slot matters: fold all of them in (weighted by position)
+        for j, a in enumerate(ia):
+            e('mul t0, %s, %d' % (a, 2 * j + 3))
+            e('add %s, %s, t0' % (f.ir[j % len(f.ir)], f.ir[j % len(f.ir)]))
+        for j, a in enumerate(da):
+            e('dmul d2, %s, %d.0' % (a, j + 2))
+            e('dadd %s, %s, d2' % (f.dr[j % 2], f.dr[j % 2]))
+        for j, a in enumerate(fa):
+            e('fadd %s, %s, %s' % (f.sr[j % 2], f.sr[j % 2], a))
+        for a in xa[1:]:
+            e('ldadd x0, x0, %s' % a)
+        e('mov t0, 0')
         if f.kind == 'va':
             # sum a0 variadic i64 arguments into r0
             f.feat_va = True
